@@ -82,6 +82,7 @@ class Panoptica_Aggregator:
             ), f"You gave the extension {extension}, but currently only .tsv is supported. Either delete it or give .tsv as extension"
         else:
             out_file_path += ".tsv"  # add extension
+            output_file = Path(out_file_path)
 
         # one buffer file per output file, so that aggregators writing to different
         # output files in the same directory do not share (or delete) each other's claims
